@@ -137,7 +137,7 @@ class CacheRun(object):
     before = self.overflow
     exc = 0
     try:
-      self.cache.store(mname, (ts, float(vid)))
+      self.cache.store(mname, (ts, enc(vid)))
     except Exception as e:
       exc = 1
       self.last_exc = repr(e)
@@ -153,7 +153,7 @@ class CacheRun(object):
       exc = 1
       self.last_exc = repr(e)
     self.ev.append(dict(k='ret', t=t, op='drain', exc=exc, sig=0, m=self.mid(metric),
-                        batch=[[int(a), int(b)] for a, b in pts]))
+                        batch=[[int(a), dec(b)] for a, b in pts]))
     return metric
 
   def do_query(self, t, op):
@@ -169,7 +169,7 @@ class CacheRun(object):
     (n,) = struct.unpack('!L', raw[:4])
     resp = pickle.loads(raw[4:4 + n])
     self.ev.append(dict(k='ret', t=t, op='query', exc=0, sig=0, m=self.mid(mname),
-                        batch=[[int(a), int(b)] for a, b in resp['datapoints']]))
+                        batch=[[int(a), dec(b)] for a, b in resp['datapoints']]))
 
   def r_body(self):
     for op in self.r_ops:
@@ -216,6 +216,15 @@ class CacheRun(object):
 
 # ---------------------------------------------------------------------------------
 # workloads
+
+def enc(vid):
+  """value stored for datapoint id `vid`: id 1 carries the value 0.0 (a falsy value must behave like any other)"""
+  return 0.0 if vid == 1 else float(vid)
+
+
+def dec(v):
+  return 1 if v == 0 else int(v)
+
 
 def gen_workload(rng, nmetrics, nts, nstores, ndrains, nqueries=1, ticks=False):
   ops = []
@@ -416,7 +425,7 @@ def replay_behaviour(mods, beh, strategy, hard, lag, flow=False):
   def project():
     c = run.cache
     keyseq = tuple(run.mid(k) for k in c.keys())
-    pts = frozenset((run.mid(k), int(ts), int(v)) for k, d in c.items() for ts, v in d.items())
+    pts = frozenset((run.mid(k), int(ts), dec(v)) for k, d in c.items() for ts, v in d.items())
     out = dict(keyseq=keyseq, pts=pts, size=c.size)
     if strategy == 'bucketmax':
       b = tuple(tuple(run.mid(x) for x in bk) for bk in c.strategy.buckets)
